@@ -289,3 +289,197 @@ Proof.
   destruct (Hp t nd Hg) as (d & Hf & Hb). rewrite Hb, IH by (intros t' Ht'; apply Hin; right; exact Ht').
   unfold addr_of. rewrite Hf. reflexivity.
 Qed.
+
+(* ====================================================================================== *)
+(* 4. the first loop                                                                      *)
+(* ====================================================================================== *)
+Lemma seeM_eq : forall cr l s n c seen,
+  seeM cr l (s, n, c, seen) =
+  if mem_bytes l seen then (s, n, c, seen)
+  else (fst (fst (add_page_int l cr s)), n + snd (fst (add_page_int l cr s)), c ++ snd (add_page_int l cr s), l :: seen).
+Proof.
+  intros. unfold seeM. destruct (mem_bytes l seen); [reflexivity|].
+  destruct (add_page_int l cr s) as [[s1 n1] c1]. reflexivity.
+Qed.
+
+(* what `see` keeps, whatever the sizes *)
+Lemma seeM_model : forall cr l s n c seen, Inv18 s ->
+  let x := seeM cr l (s, n, c, seen) in
+  let s' := fst (fst (fst x)) in
+  nb s <= nb s' /\ lastwe s <= lastwe s' /\ lastwe s' <= lastwe s + 1 /\ stubs s' = stubs s /\ keeps s s'.
+Proof.
+  intros cr l s n c seen Hinv. cbv zeta. rewrite seeM_eq. destruct (mem_bytes l seen); cbn [fst snd].
+  - split; [lia|]. split; [lia|]. split; [lia|]. split; [reflexivity|apply keeps_refl].
+  - pose proof (add_page_int_nb_mono l cr s) as H1.
+    pose proof (add_page_int_counter l cr s) as H2. cbv zeta in H2.
+    pose proof (add_page_int_step l cr s (Inv18_good s Hinv)) as H3.
+    split; [exact H1|]. split; [destruct H2 as [[_ H2]|(v & _ & H2)]; lia|].
+    split; [destruct H2 as [[_ H2]|(v & _ & H2)]; lia|].
+    split; [exact (step_stubs _ _ H3)|exact (step_keeps _ _ H3)].
+Qed.
+
+(* the invariant of `see`: the model's (state, created ids, seen list) against the code's (header, storage, dict) *)
+Definition SInv (rm : py_ram) (s : traph) (c : list (N * list bytes)) (seen : list bytes)
+  (hd : py_thdr) (sg : py_pm) (pages : list (bytes * py_node)) : Prop :=
+  Inv18 s /\ root_first s /\ anchors_known s /\ ramrep s rm /\ hrep s hd sg /\
+  (forall w, In w (map fst c) -> w <= lastwe s) /\
+  pages_ok s pages /\ (forall y, py_dict_mem y pages = mem_bytes y seen).
+
+Lemma see_spec : forall rm l s n c seen hd sg pages,
+  SInv rm s c seen hd sg pages -> wf_lru l ->
+  let x := seeM false l (s, n, c, seen) in
+  let s' := fst (fst (fst x)) in
+  nb s' * 128 < 2 ^ 64 -> lastwe s + 1 < 2 ^ 32 ->
+  exists hd' sg' pages',
+    see_py rm l (hd, sg, report_of n c, pages) = Some (hd', sg', report_of (snd (fst (fst x))) (snd (fst x)), pages') /\
+    SInv rm s' (snd (fst x)) (snd x) hd' sg' pages' /\
+    py_dict_mem l pages' = true /\ (forall y, py_dict_mem y pages = true -> py_dict_mem y pages' = true).
+Proof.
+  intros rm l s n c seen hd sg pages (Hinv & Hroot & Hk & Hram & Hh & Hb & Hp & Hm) Hl. cbv zeta.
+  rewrite seeM_eq. unfold see_py. rewrite (Hm l).
+  destruct (mem_bytes l seen) eqn:Em; cbn [fst snd negb]; intros Hsize Hlt.
+  - exists hd, sg, pages. split; [reflexivity|]. split; [exact (conj Hinv (conj Hroot (conj Hk (conj Hram (conj Hh (conj Hb (conj Hp Hm)))))))|].
+    split; [rewrite Hm; exact Em|auto].
+  - set (r := add_page_int l false s) in *. set (s1 := fst (fst r)) in *.
+    destruct (py_traph_add_page_int_node s Hinv Hroot rm hd sg l false Hram Hh Hl
+                (trie_add_page_walk_known l false s Hl Hk) Hsize Hlt)
+      as (Hinv1 & Hroot1 & hd1 & sg1 & n1 & E & Hh1 & Hram1 & d1 & Hf1 & Hb1).
+    fold r s1 in Hinv1, Hroot1, E, Hh1, Hram1, Hf1.
+    pose proof (anchors_known_add_page_int l false s Hk) as Hk1. fold r s1 in Hk1.
+    pose proof (add_page_int_counter l false s) as Hc. cbv zeta in Hc. fold r s1 in Hc.
+    pose proof (add_page_int_step l false s (Inv18_good s Hinv)) as Hstep. fold r s1 in Hstep.
+    rewrite E.
+    rewrite (iadd_fresh n c (snd (fst r)) (snd r) (lastwe s) Hb)
+      by (destruct Hc as [[Hc _]|(valid & Hc & _)]; [left; exact Hc|right; exists valid; exact Hc]).
+    exists hd1, sg1, (py_dict_update l n1 pages). split; [reflexivity|]. split.
+    + split; [exact Hinv1|]. split; [exact Hroot1|]. split; [exact Hk1|]. split; [exact Hram1|]. split; [exact Hh1|].
+      split; [|split].
+      * intros w Hin. rewrite map_app in Hin. apply in_app_or in Hin.
+        destruct Hc as [[Hc El]|(valid & Hc & El)]; rewrite Hc in Hin; cbn [map fst In] in Hin; rewrite El.
+        -- destruct Hin as [Hin|[]]. exact (Hb w Hin).
+        -- destruct Hin as [Hin|[<-|[]]]; [specialize (Hb w Hin)|]; lia.
+      * intros y nd Hg. rewrite dict_get_update in Hg. destruct (beq y l) eqn:Ey.
+        -- apply beq_true in Ey. subst y. injection Hg as <-. exists d1. split; assumption.
+        -- exact (pages_ok_keeps s s1 pages (step_keeps _ _ Hstep) Hp y nd Hg).
+      * intro y. rewrite dict_mem_update, Hm. reflexivity.
+    + split; [rewrite dict_mem_update, beq_refl'; reflexivity|].
+      intros y Hy. rewrite dict_mem_update, Hy. apply orb_true_r.
+Qed.
+
+(* every key and every value of a multimap is a key of the dict *)
+Definition mm_in (pages : list (bytes * py_node)) (mm : list (bytes * list bytes)) : Prop :=
+  forall k vs, In (k, vs) mm -> py_dict_mem k pages = true /\ forall v, In v vs -> py_dict_mem v pages = true.
+
+Lemma mm_in_add : forall pages k v mm, mm_in pages mm -> py_dict_mem k pages = true -> py_dict_mem v pages = true ->
+  mm_in pages (mm_add k v mm).
+Proof.
+  intros pages k v mm. induction mm as [|[k0 vs0] mm IH]; intros Hm Hk Hv k' vs' Hin; cbn [mm_add] in Hin.
+  - destruct Hin as [E|[]]. injection E as <- <-. split; [exact Hk|]. intros v' [<-|[]]. exact Hv.
+  - destruct (beq k k0).
+    + destruct Hin as [E|Hin].
+      * injection E as <- <-. destruct (Hm k0 vs0 (or_introl eq_refl)) as [H1 H2]. split; [exact H1|].
+        intros v' Hv'. apply in_app_or in Hv'. destruct Hv' as [Hv'|[<-|[]]]; auto.
+      * apply Hm. right. exact Hin.
+    + destruct Hin as [E|Hin].
+      * injection E as <- <-. apply Hm. left. reflexivity.
+      * apply IH; auto. intros k1 vs1 H1. apply Hm. right. exact H1.
+Qed.
+
+Lemma mm_in_mono : forall pages pages' mm, (forall y, py_dict_mem y pages = true -> py_dict_mem y pages' = true) ->
+  mm_in pages mm -> mm_in pages' mm.
+Proof. intros pages pages' mm Hmono Hm k vs Hin. destruct (Hm k vs Hin) as [H1 H2]. split; auto. Qed.
+
+(* the model's turn *)
+Definition FM : traph * N * list (N * list bytes) * list bytes * list (bytes * list bytes) * list (bytes * list bytes) ->
+  bytes * bytes -> traph * N * list (N * list bytes) * list bytes * list (bytes * list bytes) * list (bytes * list bytes) :=
+  fun '(s, n, c, seen, outs, ins) '(a, b) =>
+    let '(s, n, c, seen) := seeM false a (s, n, c, seen) in
+    let '(s, n, c, seen) := seeM false b (s, n, c, seen) in
+    (s, n, c, seen, mm_add a b outs, mm_add b a ins).
+
+Lemma add_links_FM : forall links s,
+  add_links links s =
+  let '(s1, n, c, _, outs, ins) := fold_left FM links (s, 0, [], [], [], []) in
+  (flush_links false ins (flush_links true outs s1), Report n c).
+Proof. reflexivity. Qed.
+
+Lemma seeM_Inv18 : forall cr l s n c seen, Inv18 s -> Inv18 (fst (fst (fst (seeM cr l (s, n, c, seen))))).
+Proof.
+  intros cr l s n c seen Hinv. rewrite seeM_eq. destruct (mem_bytes l seen); cbn [fst]; [exact Hinv|].
+  exact (Tr_inv _ _ _ (add_page_int_Tr l cr s Hinv)).
+Qed.
+
+Lemma FM_model : forall ls s n c seen outs ins, Inv18 s ->
+  forall s1 n1 c1 seen1 outs1 ins1, fold_left FM ls (s, n, c, seen, outs, ins) = (s1, n1, c1, seen1, outs1, ins1) ->
+  nb s <= nb s1 /\ stubs s1 = stubs s /\ Inv18 s1.
+Proof.
+  induction ls as [|[a b] ls IH]; intros s n c seen outs ins Hinv s1 n1 c1 seen1 outs1 ins1 E.
+  - cbn in E. injection E as <- _ _ _ _ _. split; [lia|]. split; [reflexivity|exact Hinv].
+  - cbn [fold_left] in E. unfold FM at 2 in E.
+    pose proof (seeM_model false a s n c seen Hinv) as M1. cbv zeta in M1.
+    pose proof (seeM_Inv18 false a s n c seen Hinv) as Hinv2.
+    destruct (seeM false a (s, n, c, seen)) as [[[s2 n2] c2] seen2]. cbn [fst snd] in M1, Hinv2.
+    pose proof (seeM_model false b s2 n2 c2 seen2 Hinv2) as M2. cbv zeta in M2.
+    pose proof (seeM_Inv18 false b s2 n2 c2 seen2 Hinv2) as Hinv3.
+    destruct (seeM false b (s2, n2, c2, seen2)) as [[[s3 n3] c3] seen3]. cbn [fst snd] in M2, Hinv3.
+    destruct (IH s3 n3 c3 seen3 (mm_add a b outs) (mm_add b a ins) Hinv3 _ _ _ _ _ _ E) as (H1 & H2 & H3).
+    destruct M1 as (? & _ & _ & ? & _). destruct M2 as (? & _ & _ & ? & _).
+    split; [lia|]. split; [congruence|exact H3].
+Qed.
+
+Lemma first_loop_spec : forall rm sgl links s n c seen outs ins hd sg pages,
+  SInv rm s c seen hd sg pages -> mm_in pages outs -> mm_in pages ins ->
+  Forall (fun l => wf_lru (fst l) /\ wf_lru (snd l)) links ->
+  exists s1 n1 c1 seen1 outs1 ins1,
+    fold_left FM links (s, n, c, seen, outs, ins) = (s1, n1, c1, seen1, outs1, ins1) /\
+    nb s <= nb s1 /\ stubs s1 = stubs s /\
+    (nb s1 * 128 < 2 ^ 64 -> lastwe s + N.of_nat (2 * length links) < 2 ^ 32 ->
+     exists hd1 sg1 pages1,
+       fold_left (k_step rm) links (Some (hd, sg, sgl, report_of n c, pages, outs, ins)) =
+         Some (hd1, sg1, sgl, report_of n1 c1, pages1, outs1, ins1) /\
+       SInv rm s1 c1 seen1 hd1 sg1 pages1 /\ mm_in pages1 outs1 /\ mm_in pages1 ins1).
+Proof.
+  intros rm sgl links. induction links as [|[a b] links IH]; intros s n c seen outs ins hd sg pages HI Ho Hi Hwf.
+  - exists s, n, c, seen, outs, ins. split; [reflexivity|]. split; [lia|]. split; [reflexivity|].
+    intros _ _. exists hd, sg, pages. split; [reflexivity|]. auto.
+  - inversion Hwf as [|x xs [Ha Hb] Hwf']; subst. cbn [fst snd] in Ha, Hb.
+    cbn [fold_left]. unfold FM at 2.
+    pose proof (seeM_model false a s n c seen (proj1 HI)) as M1. cbv zeta in M1.
+    pose proof (see_spec rm a s n c seen hd sg pages HI Ha) as S1. cbv zeta in S1.
+    destruct (seeM false a (s, n, c, seen)) as [[[s2 n2] c2] seen2] eqn:E1. cbn [fst snd] in M1, S1.
+    destruct M1 as (Mnb1 & Mlo1 & Mhi1 & Mst1 & _).
+    (* the second `see` can only be stated once the first is known to succeed: its model facts need Inv18 s2 *)
+    assert (Hinv2 : Inv18 s2).
+    { pose proof (seeM_eq false a s n c seen) as Eq. rewrite E1 in Eq. destruct (mem_bytes a seen).
+      - injection Eq as -> _ _ _. exact (proj1 HI).
+      - injection Eq as -> _ _ _. exact (Tr_inv _ _ _ (add_page_int_Tr a false s (proj1 HI))). }
+    pose proof (seeM_model false b s2 n2 c2 seen2 Hinv2) as M2. cbv zeta in M2.
+    destruct (seeM false b (s2, n2, c2, seen2)) as [[[s3 n3] c3] seen3] eqn:E2. cbn [fst snd] in M2.
+    destruct M2 as (Mnb2 & Mlo2 & Mhi2 & Mst2 & _).
+    (* the rest of the loop, on the model side, is independent of the code: use the IH in two stages *)
+    assert (HM : exists s1 n1 c1 seen1 outs1 ins1,
+               fold_left FM links (s3, n3, c3, seen3, mm_add a b outs, mm_add b a ins) = (s1, n1, c1, seen1, outs1, ins1)).
+    { destruct (fold_left FM links (s3, n3, c3, seen3, mm_add a b outs, mm_add b a ins)) as [[[[[s1 n1] c1] seen1] outs1] ins1].
+      exists s1, n1, c1, seen1, outs1, ins1. reflexivity. }
+    destruct HM as (s1 & n1 & c1 & seen1 & outs1 & ins1 & EM).
+    exists s1, n1, c1, seen1, outs1, ins1. split; [exact EM|].
+    assert (Hinv3 : Inv18 s3).
+    { pose proof (seeM_eq false b s2 n2 c2 seen2) as Eq. rewrite E2 in Eq. destruct (mem_bytes b seen2).
+      - injection Eq as -> _ _ _. exact Hinv2.
+      - injection Eq as -> _ _ _. exact (Tr_inv _ _ _ (add_page_int_Tr b false s2 Hinv2)). }
+    destruct (FM_model links s3 n3 c3 seen3 (mm_add a b outs) (mm_add b a ins) Hinv3 _ _ _ _ _ _ EM) as (Hnb3 & Hst3 & _).
+    split; [lia|]. split; [congruence|].
+    intros Hsize Hlt.
+    assert (Hlen : N.of_nat (2 * length ((a, b) :: links)) = 2 + N.of_nat (2 * length links)) by (cbn [length]; lia).
+    rewrite Hlen in Hlt. clear Hlen.
+    destruct S1 as (hd2 & sg2 & pages2 & Es1 & HI2 & Hma & Hmono1); [rewrite pow64 in *; nia|lia|].
+    pose proof (see_spec rm b s2 n2 c2 seen2 hd2 sg2 pages2 HI2 Hb) as S2. cbv zeta in S2. rewrite E2 in S2. cbn [fst snd] in S2.
+    destruct S2 as (hd3 & sg3 & pages3 & Es2 & HI3 & Hmb & Hmono2); [rewrite pow64 in *; nia|lia|].
+    rewrite k_step_eq, Es1, Es2.
+    destruct (IH s3 n3 c3 seen3 (mm_add a b outs) (mm_add b a ins) hd3 sg3 pages3 HI3) as
+      (s1' & n1' & c1' & seen1' & outs1' & ins1' & EM' & _ & _ & HC); [| |exact Hwf'|].
+    + apply mm_in_add; [|apply Hmono2, Hma|exact Hmb]. apply (mm_in_mono pages); [|exact Ho]. auto.
+    + apply mm_in_add; [|exact Hmb|apply Hmono2, Hma]. apply (mm_in_mono pages); [|exact Hi]. auto.
+    + rewrite EM in EM'. injection EM' as <- <- <- <- <- <-.
+      rewrite !py_mm_add_eq. apply HC; [exact Hsize|lia].
+Qed.
